@@ -283,6 +283,12 @@ func VerifPrimaryChain(k int) (*Store, *DB, []ltx.Pos) {
 	return w.store, w.db, chain
 }
 
+// VerifPrimaryChainFrom: like VerifPrimaryChain, the history starting after TXID base.
+func VerifPrimaryChainFrom(k int, base uint64) (*Store, *DB, []ltx.Pos) {
+	w, chain := verifChainFrom(k, 1, ltx.TXID(base))
+	return w.store, w.db, chain
+}
+
 func verifChainWorld(k int) *verifWorld {
 	w, _ := verifChain(k)
 	return w
@@ -292,11 +298,15 @@ func verifChain(k int) (*verifWorld, []ltx.Pos) { return verifChainN(k, 1) }
 
 // verifChainN: like verifChain with an n0-page database; the chain's
 // transactions rewrite page 1 only.
-func verifChainN(k, n0 int) (*verifWorld, []ltx.Pos) {
+func verifChainN(k, n0 int) (*verifWorld, []ltx.Pos) { return verifChainFrom(k, n0, 41) }
+
+// verifChainFrom: like verifChainN with the history starting after position base
+// (base 0: the log holds every transaction since the first one).
+func verifChainFrom(k, n0 int, base ltx.TXID) (*verifWorld, []ltx.Pos) {
 	ctx := context.Background()
 	w := verifNewStore(true)
 	w.img0 = verifImage("img0", n0, false)
-	w.verifOpenDB(w.img0, 41)
+	w.verifOpenDB(w.img0, base)
 	db := w.db
 	chain := []ltx.Pos{db.Pos()}
 	for i := 0; i < k; i++ {
